@@ -80,11 +80,6 @@ Record pcfg := {
   pc_handlers : list (bytes * (bytes * N))     (* path -> body, spref (0 = None) *)
 }.
 
-Fixpoint handler_at (k : bytes) (i : N) (l : list (bytes * (bytes * N))) : option (N * (bytes * N)) :=
-  match l with
-  | [] => None
-  | (k', v) :: r => if beq k' k then Some (i, v) else handler_at k (i + 1) r
-  end.
 (** [HashMap::insert]: a later handler for the same path replaces the earlier one *)
 Fixpoint handler_last (k : bytes) (i : N) (l : list (bytes * (bytes * N))) (acc : option (N * (bytes * N)))
   : option (N * (bytes * N)) :=
@@ -166,10 +161,26 @@ Definition step_request (c : pcfg) (cache : cache_t) (m target : bytes) (okind :
       end
   end.
 
-Fixpoint run_history (c : pcfg) (cache : cache_t) (reqs : list (bytes * bytes * N)) : list xval :=
-  match reqs with
+(** a history is made of requests and of "alias" steps that copy the cache entry stored under one
+    key to another key (any cache content: theorem 2b quantifies over the entry found) *)
+Inductive op :=
+| OReq (m t : bytes) (k : N)
+| OAlias (from to_ : bytes).
+
+Definition step_op (c : pcfg) (cache : cache_t) (o : op) : xval * cache_t :=
+  match o with
+  | OReq m t k => step_request c cache m t k
+  | OAlias from to_ =>
+      match (if pc_cache c then cache_get from cache else None) with
+      | Some cr => (XL [XN 1], (to_, cr) :: cache)
+      | None => (XL [XN 0], cache)
+      end
+  end.
+
+Fixpoint run_history (c : pcfg) (cache : cache_t) (ops : list op) : list xval :=
+  match ops with
   | [] => []
-  | (m, t, k) :: r => let '(o, cache') := step_request c cache m t k in o :: run_history c cache' r
+  | o :: r => let '(out, cache') := step_op c cache o in out :: run_history c cache' r
   end.
 
 (** ---------------------------------------------------------------------------
@@ -178,13 +189,17 @@ Definition d_pair_BB (x : xval) : option (bytes * bytes) :=
   match x with XL [XB a; XB b] => Some (a, b) | _ => None end.
 Definition d_handler (x : xval) : option (bytes * (bytes * N)) :=
   match x with XL [XB a; XB b; XN s] => Some (a, (b, s)) | _ => None end.
-Definition d_request (x : xval) : option (bytes * bytes * N) :=
-  match x with XL [XB m; XB t; XN k] => Some (m, t, k) | _ => None end.
+Definition d_request (x : xval) : option op :=
+  match x with
+  | XL [XB m; XB t; XN k] => Some (OReq m t k)
+  | XL [XN 1; XB a; XB b] => Some (OAlias a b)
+  | _ => None
+  end.
 
 Definition internal_keys (default_ext : bool) : list bytes :=
   if default_ext then [cors_fail; cors_options] else [].
 
-Definition decode_scenario (x : xval) : option (pcfg * list (bytes * bytes * N)) :=
+Definition decode_scenario (x : xval) : option (pcfg * list op) :=
   match x with
   | XL [XL [de; ca; _fc; XB public; files; handlers]; reqs] =>
       match d_bool de, d_bool ca, d_list d_pair_BB files, d_list d_handler handlers, d_list d_request reqs with
@@ -210,12 +225,15 @@ Definition run_pipe (x : xval) : xval :=
 
 (** Spec component, independent of [serve] and of [sanitize_path]: per request, must the answer be
     400?  — exactly when the percent-decoded bytes of the URI path are [unsafe_b]. *)
-Definition spec_request (r : bytes * bytes * N) : xval :=
-  let '(_, t, _) := r in
-  if negb (starts_with [c_slash] t) then XN 96 else
-  match uri_path t with
-  | None => XN 96
-  | Some p => x_bool (unsafe_b (percent_decode p))
+Definition spec_request (o : op) : xval :=
+  match o with
+  | OAlias _ _ => XN 97
+  | OReq _ t _ =>
+      if negb (starts_with [c_slash] t) then XN 96 else
+      match uri_path t with
+      | None => XN 96
+      | Some p => x_bool (unsafe_b (percent_decode p))
+      end
   end.
 Definition run_pipe_spec (x : xval) : xval :=
   match decode_scenario x with
